@@ -88,6 +88,13 @@ def r2(ctx):
         ctx.ob("R2", dirs == [want], "a directive is recorded without its leading '##' (and nothing else removed)", func=f, sig="directive %r stored as %r" % (line, dirs))
     ys, dirs, seen, stream, t = _run_file(ctx, ["##b\n", FEATURE_LINE % "x" + "\n", "##a\n", "##b\n"])
     ctx.ob("R2", dirs == ["b", "a", "b"], "directives are kept in file order, repeats included", func=f, sig="directives of a file: %s" % dirs)
+    # ...however the pass over the file ends: at ##FASTA, at a '>' header, at the end of the file
+    for label, tail in (("##FASTA", ["##FASTA\n", ">chr1\n", "ACGT\n"]), ("a '>' header", [">chr1\n", "ACGT\n"]), ("the end of the file", [])):
+        D = ["stale"]
+        ys, dirs, seen, stream, t = _run_file(ctx, ["##gff-version 3\n", FEATURE_LINE % "x" + "\n", "###\n"] + tail, directives=D)
+        ok = list(dirs) == ["gff-version 3", "#"] and dirs is D
+        ctx.ob("R2", ok, "the directives seen before %s are in the iterator's (captured) list when the pass ends there" % label, func=f,
+               sig="pass ending at %s leaves the directives in place" % label if ok else "pass ending at %s leaves %s%s" % (label, list(dirs), "" if dirs is D else " in another list object"))
 
 
 def r3(ctx):
@@ -137,55 +144,29 @@ def r3(ctx):
 
 
 def r4(ctx):
-    from ..absint import Opaque
-    from .c13 import _run
-    from .. import sql as S
+    """Directives through the database: create() evaluated on the model database with a directive list (duplicates, order
+    that is not alphabetical), then FeatureDB(dbfn) evaluated on the result."""
+    from . import scen
     fin = require_func(ctx, "create._DBCreator._finalize")
-    so = Opaque("self", "obj")
-    so.attrs["directives"] = ["b", "a", "b"]
-    so.attrs["_autoincrements"] = {"gene": 2}
-    n = 0
-    for t in _run(ctx, fin, {}, self_obj=so):
-        rows = []
-        for e in t.executes():
-            text = e[1] if isinstance(e[1], str) else str(e[1])
-            try:
-                st = S.parse(text)
-            except S.SQLError:
-                continue
-            if st.verb == "INSERT" and st.table.lower() == "directives":
-                n += 1
-                for r in (e[2] if e[3] == "executemany" else [e[2]]):
-                    if isinstance(r, dict):
-                        # named placeholders: the row in the order of the VALUES list
-                        r = [r.get(v[2]) if (isinstance(v, tuple) and v[0] == "param" and v[2] != "?") else v for v in st.values]
-                    rows.append(tuple(r) if isinstance(r, (list, tuple)) else (r,))
-        ctx.ob("R4", rows == [("b",), ("a",), ("b",)], "finalisation writes one row per directive, in list order (no sorting, filtering or de-duplication)", func=fin,
-               sig="directives [b, a, b] written as %s" % rows)
-    ctx.ob("R4", n >= 1, "finalisation writes the directives to the database", func=fin, sig="directives persisted by _finalize" if n else "_finalize never inserts into `directives`")
     dbi = require_func(ctx, "interface.FeatureDB.__init__")
-    from ..util import closure
-    pool = closure(ctx, dbi)
-    sel = [s for s in execute_sites(ctx, pool) if s.stmts and s.stmts[0].verb == "SELECT" and s.stmts[0].tables() == ["directives"]]
-    ctx.floor("R4", len(sel), 1, "SELECT ... FROM directives sites")
-    st = sel[0].stmts[0]
-    # an explicit ORDER BY rowid is the storage order, i.e. what the statement returns without it
-    plain_order = not st.order_by or (len(st.order_by) == 1 and st.order_by[0][0][0] == "col" and st.order_by[0][0][2].lower() in ("rowid", "_rowid_", "oid") and st.order_by[0][1] in (None, "asc"))
-    ok = len(st.cols) == 1 and st.cols[0][0][0] == "col" and st.cols[0][0][2].lower() == "directive" and st.where is None and not st.distinct and plain_order \
-        and getattr(st, "limit", None) is None
-    ctx.ob("R4", ok, "opening a database reads every stored directive", node=sel[0].call, func=sel[0].func, sig="directives read: %s" % " ".join(sel[0].sql.text.split()))
-    from ..flow import Flow, show
-    fl = Flow(ctx, pool)
-    asg = [(g, x) for g in pool for x in ast.walk(g.node) if isinstance(x, ast.Assign) and any(isinstance(t_, ast.Attribute) and t_.attr == "directives" for t_ in x.targets)]
-    key = ("row", (sel[0].func.qual, sel[0].call.lineno, sel[0].call.col_offset))
-    ok = False
-    shown = None
-    for g, x in asg:
-        ts = fl.terms(x.value, g)
-        shown = ", ".join(sorted(show(t_) for t_ in ts))
-        ok = ok or any(t_ in (("op", "listcomp", ("pos", key, 0)), ("op", "listcomp", ("key", key, "directive")), ("op", "listcomp", ("item", key, ("const", "directive"))))
-                       or (isinstance(t_, tuple) and t_[:2] == ("op", "listcomp") and "directive" in show(t_) and repr(key[1]) in repr(t_) and len(t_) == 3) for t_ in ts)
-    ctx.ob("R4", ok, "db.directives is the list of the stored strings in row order", func=dbi, sig="db.directives := %s" % ("[row[0] for each row]" if ok else shown))
+    given = ["b", "a", "b", "gff-version 3"]
+    im, t = scen.run_create(ctx, "_GFFDBCreator", scen.gff_lines(), directives=list(given))
+    if not scen.returned(ctx, t, "create()", func=fin, rule="R4"):
+        return
+    rows = im.table("directives")
+    ctx.ob("R4", rows == [(d,) for d in given], "finalisation writes one row per directive, in list order (no sorting, filtering or de-duplication)", func=fin,
+           sig="directives %s written as %s" % (given, "they are" if rows == [(d,) for d in given] else rows))
+    it, me, conn, t0 = scen.open_feature_db(ctx, im.db)
+    if not scen.returned(ctx, t0, "FeatureDB(dbfn)", func=dbi, rule="R4"):
+        return
+    got = me.attrs.get("directives")
+    ctx.ob("R4", got == given, "opening a database reads every stored directive: db.directives is the list of the stored strings in row order", func=dbi,
+           sig="db.directives equals the stored list" if got == given else "db.directives := %r" % (got,))
+    # no directives at all
+    im, t = scen.run_create(ctx, "_GFFDBCreator", scen.gff_lines(), directives=[])
+    it, me, conn, t0 = scen.open_feature_db(ctx, im.db)
+    got = me.attrs.get("directives") if t0.result[0] == "return" else t0.result[:2]
+    ctx.ob("R4", got == [], "a file without directives gives an empty list", func=dbi, sig="no directives -> %r" % (got,), nontrivial=False)
 
 
 def check(ctx):
